@@ -8,7 +8,7 @@ from ..core import Violation
 
 META = {
     "level": "exploration",
-    "rule": ("cases = (route in numpy/segy/segy-reduced-iops/cli/generated zgy by API and CLI/zgy+vds fixtures) x one of the 344 valid (rate, blockshape) "
+    "rule": ("cases = (route in numpy/segy/segy-reduced-iops/cli/generated zgy by API and CLI/generated vds/zgy+vds fixtures) x one of the 344 valid (rate, blockshape) "
              "settings in one of 20 spellings x cube shape built per axis as k*blockdim+r (classes <,=,>,multi-block) x "
              "value kind x drawn PRNG seed x SEG-Y format IBM/IEEE x 0-2 extended text headers x queue capacity x (one case in five) a converter object that has already written another file under another setting; "
              "non-trivial = some dimension not a multiple of 4, or >1 block on an axis, or non-default route/setting; "
@@ -18,7 +18,7 @@ META = {
         "segyio is trusted for what a SEG-Y source contains (IBM sources: segyio's float32 view is the source)",
         "the library version is supplied as 0.2.8 through a shadow dist-info (the sandbox install reports an unparseable no-tag version)",
         "cells lying wholly in blockshape padding beyond the 4-aligned extent are not pinned by the statement and are not compared",
-        "VDS route: fixture test_data/vds only (no VDS author offline); ZGY route: generated files written with pyzgy's writer (value kinds with a non-degenerate range, which openzgy's histogram needs) plus the fixtures",
+        "VDS route: generated files written with openvds in the channel layout SEGYImport produces (Amplitude, Trace, SEGYTraceHeader; ascending axes only, a VDS axis being min/max/count) plus the fixture; ZGY route: generated files written with pyzgy's writer (value kinds with a non-degenerate range, which openzgy's histogram needs) plus the fixtures",
     ],
 }
 
@@ -92,6 +92,16 @@ def build_segy(case, d, data):
 
 
 def run_case(case, ctx):
+    if case["check"] in ("vds", "fixture"):
+        sources.track_vds()
+    try:
+        return _run_case(case, ctx)
+    finally:
+        if case["check"] in ("vds", "fixture"):
+            sources.close_leaked_vds()
+
+
+def _run_case(case, ctx):
     d = ctx.tmp()
     shape = tuple(case["shape"])
     data = None if case["check"] == "fixture" else gen.make_values(shape, case["values"]["kind"], case["values"]["vseed"])
@@ -123,13 +133,16 @@ def run_case(case, ctx):
             code, exc = conv.cli_invoke(args)
             if code != 0:
                 raise Violation("cli-failed", f"exit {code}: {exc!r}")
-    elif route == "zgy":
-        path = os.path.join(d, "in.zgy")
-        z = sources.write_zgy(path, data, case["il"], case["xl"], case["delay"], case["dt_us"] / 1000.0)
+    elif route in ("zgy", "vds"):
+        path = os.path.join(d, "in." + route)
+        z = (sources.write_zgy if route == "zgy" else sources.write_vds)(path, data, case["il"], case["xl"], case["delay"],
+                                                                         case["dt_us"] / 1000.0)
         src = z["cube"]
         if not codec.bits_equal(src, data):
-            raise RuntimeError("harness: pyzgy reads other samples than written")
-        if case.get("cli"):
+            raise RuntimeError(f"harness: {route} reader returns other samples than written")
+        if route == "vds":
+            conv.segy_convert(path, out, bpv, bsarg, cls="VdsConverter", header_detection=case.get("mode", "heuristic"))
+        elif case.get("cli"):
             code, exc = conv.cli_invoke(["zgy2sgz", path, out, "--bits-per-voxel", bpv])
             if code != 0:
                 raise Violation("cli-failed", f"zgy2sgz exit {code}: {exc!r}")
@@ -218,6 +231,17 @@ def zgy_cases(draw):
             "dt_us": draw(st.sampled_from([4000, 2000, 1000, 500, 2500])), "delay": draw(st.sampled_from([0, 0, 100, -20]))}
 
 
+@st.composite
+def vds_cases(draw):
+    """Generated VDS sources (openvds writer, laid out as SEGYImport does: Amplitude, Trace, SEGYTraceHeader)."""
+    setting = draw(gen.setting_spelled())
+    shape = draw(gen.shape3d(setting["blockshape"], max_voxels=150_000, max_traces=800))
+    ax = lambda: [draw(st.one_of(st.integers(-50, 5000), st.integers(-10 ** 6, 10 ** 6))), draw(st.sampled_from([1, 1, 2, 3, 5, 100]))]
+    return {"setting": setting, "shape": list(shape), "il": ax(), "xl": ax(), "values": draw(gen.values_spec),
+            "mode": draw(st.sampled_from(["heuristic", "thorough", "strip"])),
+            "dt_us": draw(st.sampled_from([4000, 2000, 1000, 500])), "delay": draw(st.sampled_from([0, 0, 100, -20]))}
+
+
 FIXTURES = ["zgy/small-32bit.zgy", "zgy/small-16bit.zgy", "zgy/small-8bit.zgy", "zgy/small-float-samplerate.zgy", "vds/small.vds"]
 
 
@@ -243,6 +267,8 @@ def shard_main(ctx):
     if not ctx.explore("cli", cli_cases(), run_case, ctx.n(20, 100)):
         return
     if not ctx.explore("zgy", zgy_cases(), run_case, ctx.n(30, 300)):
+        return
+    if not ctx.explore("vds", vds_cases(), run_case, ctx.n(20, 200)):
         return
     ctx.explore("fixture", fixture_cases(), run_case, ctx.n(12, 80))
 
